@@ -552,7 +552,9 @@ def drive(mod, tier, seed, replay=None):
             c, obs, msg = hit
             out.add_violation(msg + ' (found by search after: ' + broken[0][:200] + ')', {'case': c, 'observed': obs, 'broken': broken}, True)
         else:
-            out.add_violation('; '.join(b[:300] for b in broken[:3]), {'broken': broken}, False)
+            # name what no longer checks; keep the diverging cases (full) so that the divergence itself replays
+            div_payload = [{'case': cases[i], 'observed': observed[i], 'model_term': mod.coq_check(cases[i], observed[i])} for i in diverging[:5]]
+            out.add_violation('; '.join(b[:300] for b in broken[:3]), {'broken': broken, 'diverging_cases': div_payload}, False)
 
     samples = []
     for c, o in list(zip(cases, observed))[:3] + list(zip(cases, observed))[-3:]:
